@@ -149,7 +149,7 @@ class SimpleFitsCollection(ImageCollection):
                     hdu = hdul[self._hdu_index]
                 elif self._hdu_index is not None:
                     hdu_index = self._hdu_index[path_index]
-                    hdu = hdul[self._hdu_index]
+                    hdu = hdul[hdu_index]
                 else:
                     for hdu_index, hdu in enumerate(hdul):
                         if (
